@@ -303,7 +303,8 @@ impl AuthMatrix {
             mon.stat("hub_builds");
             let mut h = Hub::build()?;
             if after {
-                for (contract, r) in h.transfer_ownership() {
+                let rich = !self.canon;
+                for (contract, r) in h.transfer_ownership(rich) {
                     mon.check_tag("C16", "ownership_transfer", &format!("{contract}:transfer"), r.is_ok(), || {
                         format!("the genesis owner's ownership transfer of {contract} failed: {r:?}")
                     });
